@@ -312,6 +312,26 @@ Section WithOrder.
         end
     end.
 
+  (* ---- what the cache asks for next: the call it blocks in and the revision it passes
+     (client.List(ctx, list, wc.currentWatchRevision) / client.Watch(..., Revision: wc.currentWatchRevision)) ---- *)
+  Definition req_of (c : cache) : phase * N :=
+    (ph c, match ph c with PEvents => 0%N | _ => rev c end).
+  (* like syncer_run, also returning after each step the next request of the cache that was stepped *)
+  Fixpoint syncer_run_obs (gs : list cfg) (s : syncer) (steps : list stepio)
+    : option (syncer * list (list out * (phase * N))) :=
+    match steps with
+    | [] => Some (s, [])
+    | St i t r _ :: rest =>
+        match syncer_step gs s i t r with
+        | Some (s1, o) =>
+            match syncer_run_obs gs s1 rest with
+            | Some (s2, os) => Some (s2, (o, match nth_error (caches s1) i with Some c => req_of c | None => (PList, 0%N) end) :: os)
+            | None => None
+            end
+        | None => None
+        end
+    end.
+
   (* ---- the one deliberate panic: `BUG: List returned items with empty/zero revision` ----
      The guard, exactly as in the code: a List that succeeds WITH items and whose revision is "" or "0".  Everything
      up to finishResync has been sent by then (the items' updates, the resync deletions, InSync); [cache_step] is
